@@ -58,6 +58,25 @@ def build_job(comm, npts, nprocs):
     return ok
 
 
+def setup_job(comm, cfile, plot):
+    """The grid as the set-up functions choose it: on the communicator the LAYOUTS live on (all ranks but the plot-only one)."""
+    from pygyro.initialisation.setups import setupCylindricalGrid
+    with sl.warnings.catch_warnings():
+        sl.warnings.simplefilter("ignore")
+        try:
+            g, c, _ = setupCylindricalGrid(layout="v_parallel", constantFile=cfile, comm=comm, plotThread=plot, drawRank=0)
+        except RuntimeError as ex:
+            return ("raised", str(ex))
+        if plot and comm.Get_rank() == 0:
+            return ("plot",)
+        lay = g.getLayout("v_parallel")
+        ok = lay.size > 0
+        for name in ("flux_surface", "poloidal", "v_parallel"):
+            g.setLayout(name)
+            ok = ok and g.getLayout(name).size > 0
+        return ("ok", [int(x) for x in lay.nprocs[:2]], bool(ok))
+
+
 def run(ctx):
     from mpi4py import MPI
     from pygyro.model.process_grid import compute_2d_process_grid, compute_2d_process_grid_from_max
@@ -111,6 +130,30 @@ def run(ctx):
             built = bool(res.ok and all(res.values))
         events.append({"k": "grid", "npts": npts, "size": s, "raised": bool(raised or not ret), "n1": n1, "n2": n2, "built": built})
         meta.append(("grid", tuple(npts), s))
+    # the set-up functions: with a plot-only rank the layouts live on one rank fewer than the communicator passed in
+    import os
+    import shutil
+    import tempfile
+    from harness import scenarios
+    work = tempfile.mkdtemp(prefix="c20_")
+    try:
+        for i in range(10 if quick else 60):
+            npts = [rng.randint(5, 8), rng.randint(4, 8), rng.randint(4, 8), rng.randint(5, 8)]     # clamped cubic r and v need > 3 points
+            n = rng.choice([2, 3, 4, 5, 7])
+            plot = bool(i % 3)
+            cfile = scenarios.write_constants(os.path.join(work, "c%d.json" % i), npts=npts)
+            res = MPI.run(n, setup_job, policy="random", seed=i, args=(cfile, plot))
+            s = n - 1 if plot else n
+            vals = [v for v in (res.values or []) if v and v[0] != "plot"] if res.ok else []
+            raised = bool(vals) and all(v[0] == "raised" and "no valid combination" in v[1] for v in vals)
+            oks = [v for v in vals if v[0] == "ok"]
+            same = len(oks) == len(vals) and len({tuple(v[1]) for v in oks}) == 1
+            n1, n2 = (oks[0][1] if same and oks else [0, 0])
+            events.append({"k": "grid", "npts": npts, "size": s, "raised": raised, "n1": n1, "n2": n2,
+                           "built": bool(same and oks and all(v[2] for v in oks))})
+            meta.append(("setup", tuple(npts), s, "plot-only rank" if plot else "no plot rank", res.describe()[:200]))
+    finally:
+        shutil.rmtree(work, ignore_errors=True)
     rej, _ = ctx.validate_trace("C20Trace", events, what="calls of the real functions (%d)" % len(events))
     for j, (e, m) in enumerate(zip(events, meta), 1):
         ctx.count(m if e["size"] > 1 else None)
